@@ -626,6 +626,7 @@ class FunctionResult:
         self.digest = None
         self.seconds = 0.0
         self.param_values = {}
+        self.heap0 = {}
 
 
 def loop_nodes(fn_node):
@@ -721,6 +722,7 @@ def verify_function(db: ContractDB, c: Contract, case=None) -> FunctionResult:
             ex.oblige(st, f"{c.qualname}.lemma{i}", "lemma", t, info={"clause": lem})
             st.assume(t)
         st.old = ({a_: o.clone() for a_, o in st.heap.items()}, dict(env))
+        res.heap0 = {a_: o.clone() for a_, o in st.heap.items()}
         is_gen = any(isinstance(n, (ast.Yield, ast.YieldFrom)) for n in ast.walk(node))
         if is_gen:
             st.fr.env["$yield"] = st.alloc(PList([]))
